@@ -366,7 +366,16 @@ def r7_key_order(ctx):
 
 def run(ctx):
     cfgs = ["main"] if ctx.tier == "quick" else ["main", "yaml", "json5", "bare"]
-    return [r1_unordered(ctx, cfgs), r2_ambient(ctx, cfgs), r4_frontends(ctx), r5_types(ctx, cfgs), r6_sorted(ctx, cfgs[:1]), r7_key_order(ctx)]
+    # the formats deliver a string through different serde callbacks (serde_json / serde_yaml: visit_str, json5:
+    # visit_string): the clause of C01.R0 that every string callback of the value visitor is the same parser
+    from rules import c01
+    from rules.common import borrow
+    k0, _ok, _why = c01.r0_parse(ctx)
+    r8 = borrow(k0, "C10.R8", "every string callback of the value visitor hands the text to the same parser",
+                "`the same data written as JSON, JSON5 or YAML yields the same keys, diagnostics and rendered text`: a callback only one "
+                "format uses (visit_string for json5) that treats some strings differently makes the result depend on the file format",
+                only=r"ParsedValueSeed::visit_", floor=1)
+    return [r1_unordered(ctx, cfgs), r2_ambient(ctx, cfgs), r4_frontends(ctx), r5_types(ctx, cfgs), r6_sorted(ctx, cfgs[:1]), r7_key_order(ctx), r8]
 
 
 MANIFEST_ENTRY = {
